@@ -221,7 +221,7 @@ func VerifC05_Create() {
 		}
 		verifrt.Assert(n == 1, "create.exactly-one-open")
 	case "/d":
-		verifrt.Assert(code == 0 && w.ctx.State.WOFile == nil && w.led.Mutations() == 0, "create.directory-just-closes")
+		verifrt.Assert(w.ctx.State.WOFile == nil && w.led.Mutations() == 0, "create.directory-just-closes") // the result code for a directory target is not fixed by the property
 	default:
 		verifrt.Assert(code == -1 && w.ctx.State.WOFile == nil && w.led.Mutations() == 0, "create.virtual-image-refused")
 	}
